@@ -96,6 +96,16 @@ func genC08(t *core.Tape, tier string) *Scenario {
 		sc.Notes["two_handler_sets"]++
 	}
 	sc.Clients = []ClientCfg{c}
+	if c.SendComp != "" && t.Bool(1, 3, "second.client") {
+		// a second client for the same service that does not compress what it
+		// sends: a Request object that went out through the first one may be
+		// sent again through this one
+		c2 := c
+		c2.SendComp = ""
+		c2.Accept = nil // ... and knows gzip only
+		sc.Clients = append(sc.Clients, c2)
+		sc.Notes["second_client_without_send_compression"]++
+	}
 	codec := "proto"
 	if c.JSON {
 		codec = "json"
@@ -123,7 +133,20 @@ func genC08(t *core.Tape, tier string) *Scenario {
 		if concurrent {
 			p.Task = i % 2
 		}
-		makeBad(t, sc, p, &c, &sc.Handlers[p.Handler], codec, t.Pick([]int{5, 2, 2, 1}, "badness"))
+		resent := false
+		if len(sc.Clients) > 1 && !concurrent && p.Kind == KUnary {
+			for _, q := range sc.Calls {
+				if q.Kind == KUnary && q.Client == 0 && q.bad == "" && q.Handler == p.Handler && t.Bool(1, 2, "resend.through.second.client") {
+					p.Client, p.ReuseRequestOf = 1, q.ID
+					resent = true
+					sc.Notes["request_resent_through_other_client"]++
+					break
+				}
+			}
+		}
+		if !resent {
+			makeBad(t, sc, p, &c, &sc.Handlers[p.Handler], codec, t.Pick([]int{5, 2, 2, 1}, "badness"))
+		}
 		if !p.Split {
 			earlyExitKnobs(p) // a call may fail early (corrupt neighbour, injected failure)
 		}
@@ -324,6 +347,7 @@ func checkC08(w *World, st core.Status, r *RunResult) []Violation {
 			continue
 		}
 		h := &w.Sc.Handlers[p.Handler]
+		ccfg := w.Sc.Clients[p.Client]
 		tag := ccfg.Proto.String() + "/" + p.Kind.String()
 		add := func(class, msg string) {
 			vs = append(vs, Violation{Class: "C08/" + class + "/" + tag, Msg: p.ID + ": " + msg})
